@@ -6,7 +6,10 @@ out=/verif/seeded/$name
 wt=$(mktemp -d /tmp/vseed.XXXXXX)
 git -C /repo worktree add -q --detach "$wt" "${BASE:-HEAD}" || exit 2
 if ! git -C "$wt" apply --check "$out/patch.diff" 2>/dev/null; then
-  git -C /repo worktree remove --force "$wt"; git -C /repo worktree add -q --detach "$wt" e019c9f^ || exit 2
+  for fb in 151f69a e019c9f^; do
+    git -C /repo worktree remove --force "$wt"; git -C /repo worktree add -q --detach "$wt" $fb || exit 2
+    git -C "$wt" apply --check "$out/patch.diff" 2>/dev/null && break
+  done
 fi
 git -C "$wt" apply "$out/patch.diff" || { echo "$name: PATCH DOES NOT APPLY"; git -C /repo worktree remove --force "$wt"; exit 2; }
 tests=$( cd "$wt" && PYTHONPATH="$wt" OMP_NUM_THREADS=1 OPENBLAS_NUM_THREADS=1 /venv/bin/python -m pytest -q -p no:cacheprovider -n ${NTEST:-6} --timeout=900 2>&1 | tail -1 )
